@@ -352,6 +352,10 @@ class IH5InnerNode(IH5Node):
                 return default
             else:
                 raise
+        except ValueError as e:
+            if str(e).find("path inside a value") >= 0:
+                return default  # path runs through a dataset -> no such node
+            raise
 
     def __getitem__(self, key: str):
         self._guard_open()
@@ -369,7 +373,12 @@ class IH5InnerNode(IH5Node):
 
     def __contains__(self, key: str):
         self._guard_key(key)
-        return self._find(key) is not None
+        try:
+            return self._find(key) is not None
+        except ValueError as e:
+            if str(e).find("path inside a value") >= 0:
+                return False  # path runs through a dataset -> no such node
+            raise
 
     def __iter__(self):
         return iter(self._children().keys())
